@@ -77,7 +77,7 @@ theorem select_errorCommon_iff (i : BindIn) :
 /-- "carries content and unmarshals", as the code decides it: no error recorded so far, the body
 is (or can be) read, and the unmarshaller chosen from the Content-Type accepts it. -/
 def Ready (i : BindIn) (h : Http) : Prop :=
-  i.respErr = none ∧ (i.bodyCached = true ∨ h.readOK = true) ∧ codecOK h = true
+  i.respErr = none ∧ (i.bodyCached = true ∨ h.bodyOK = true) ∧ codecOK h = true
 
 instance (i : BindIn) (h : Http) : Decidable (Ready i h) := by unfold Ready; infer_instance
 
@@ -92,7 +92,7 @@ theorem parse_slots (i : BindIn) :
   · simp [parseBody]
   · rcases hsel : selectTarget ⟨some h, sT, eT, cE, respErr, cached, slots⟩ with _ | t
     · simp [parseBody, hsel]
-    · rcases respErr with _ | e <;> cases cached <;> cases hr : h.readOK <;> cases hc : codecOK h <;>
+    · rcases respErr with _ | e <;> cases cached <;> cases hr : h.bodyOK <;> cases hc : codecOK h <;>
         simp [parseBody, hsel, Ready, hr, hc]
 
 /-- The error `parseResponseBody` returns, in closed form: none when no target is selected;
@@ -104,7 +104,7 @@ theorem parse_err (i : BindIn) :
         match i.respErr with
         | some e => some e
         | none =>
-          if i.bodyCached = false ∧ h.readOK = false then some .read
+          if i.bodyCached = false ∧ h.bodyOK = false then h.acqErr
           else if codecOK h = true then none else some .unmarshal
       | _, _ => none := by
   obtain ⟨http, sT, eT, cE, respErr, cached, slots⟩ := i
@@ -112,7 +112,7 @@ theorem parse_err (i : BindIn) :
   · simp [parseBody]
   · rcases hsel : selectTarget ⟨some h, sT, eT, cE, respErr, cached, slots⟩ with _ | t
     · simp [parseBody, hsel]
-    · rcases respErr with _ | e <;> cases cached <;> cases hr : h.readOK <;> cases hc : codecOK h <;>
+    · rcases respErr with _ | e <;> cases cached <;> cases hr : h.bodyOK <;> cases hc : codecOK h <;>
         simp [parseBody, hsel, hr, hc]
 
 /-- **success_bound_iff** — starting from empty slots, the success result is populated exactly
@@ -250,20 +250,40 @@ recorded before and the body reads but does not unmarshal, `parseResponseBody` r
 unmarshalling error and leaves the slots untouched. -/
 theorem unmarshal_failure_surfaces (i : BindIn) (h : Http) (t : Target)
     (hh : i.http = some h) (hsel : selectTarget i = some t) (he : i.respErr = none)
-    (hread : i.bodyCached = true ∨ h.readOK = true) (hbad : codecOK h = false) :
+    (hread : i.bodyCached = true ∨ h.bodyOK = true) (hbad : codecOK h = false) :
     (parseBody i).err = some .unmarshal ∧ (parseBody i).slots = i.slots := by
   constructor
   · rw [parse_err]; simp only [hh, hsel, he, hbad]
-    have : ¬ (i.bodyCached = false ∧ h.readOK = false) := by
+    have : ¬ (i.bodyCached = false ∧ h.bodyOK = false) := by
       rintro ⟨a, b⟩; rcases hread with c | c <;> simp_all
     simp [this]
   · rw [parse_slots]; simp [hh, hsel, Ready, hbad]
 
+/-- What `ToBytes` can fail with: the body read, or the client's response-body transformer. -/
+theorem acqErr_cases (h : Http) (e : Err) (he : h.acqErr = some e) :
+    (h.readOK = false ∧ e = .read) ∨ (h.readOK = true ∧ ∃ k, h.xf = .fail e k) := by
+  unfold Http.acqErr at he
+  cases hr : h.readOK
+  · left; simp [hr] at he; exact ⟨rfl, he.symm⟩
+  · right
+    simp only [hr, Bool.not_true, Bool.false_eq_true, if_false] at he
+    split at he
+    · cases he; exact ⟨rfl, _, by assumption⟩
+    · cases he
+
+theorem bodyOK_false (h : Http) (hb : h.bodyOK = false) : ∃ e, h.acqErr = some e := by
+  unfold Http.bodyOK at hb
+  cases ha : h.acqErr with
+  | none => simp [ha] at hb
+  | some e => exact ⟨e, rfl⟩
+
 /-- Conversely `parseResponseBody` returns an error ONLY when a target was selected; the error
-is then the recorded one, a read failure or an unmarshalling failure — and nothing is bound. -/
+is then the recorded one, a failure to read or transform the body (recorded by `ToBytes`), or
+an unmarshalling failure — and nothing is bound. -/
 theorem parse_err_cases (i : BindIn) (e : Err) (herr : (parseBody i).err = some e) :
-    (∃ h t, i.http = some h ∧ selectTarget i = some t) ∧
-    (i.respErr = some e ∨ (i.respErr = none ∧ (e = .read ∨ e = .unmarshal))) ∧
+    (∃ h t, i.http = some h ∧ selectTarget i = some t ∧
+      (i.respErr = some e ∨
+        (i.respErr = none ∧ ((i.bodyCached = false ∧ h.acqErr = some e) ∨ e = .unmarshal)))) ∧
     (parseBody i).slots = i.slots := by
   rw [parse_err] at herr
   rw [parse_slots]
@@ -272,32 +292,69 @@ theorem parse_err_cases (i : BindIn) (e : Err) (herr : (parseBody i).err = some 
   · rcases hsel : selectTarget i with _ | t
     · simp [hh, hsel] at herr
     · simp only [hh, hsel] at herr ⊢
-      refine ⟨⟨h, t, rfl, rfl⟩, ?_⟩
       rcases hre : i.respErr with _ | e'
       · simp only [hre] at herr
         have hnr : ¬ Ready i h := by
           intro ⟨_, h2, h3⟩
-          have : ¬ (i.bodyCached = false ∧ h.readOK = false) := by
+          have : ¬ (i.bodyCached = false ∧ h.bodyOK = false) := by
             rintro ⟨a, b⟩; rcases h2 with c | c <;> simp_all
           simp [this, h3] at herr
-        refine ⟨Or.inr ⟨rfl, ?_⟩, by simp [hnr]⟩
+        refine ⟨⟨h, t, rfl, rfl, Or.inr ⟨rfl, ?_⟩⟩, by simp [hnr]⟩
         split at herr
-        · left; cases herr; rfl
+        · left; rename_i hc; exact ⟨hc.1, herr⟩
         · split at herr
           · cases herr
           · right; cases herr; rfl
       · simp only [hre] at herr
         cases herr
-        exact ⟨Or.inl rfl, by simp [Ready, hre]⟩
+        exact ⟨⟨h, t, rfl, rfl, Or.inl rfl⟩, by simp [Ready, hre]⟩
 
-/-- The unmarshaller is XML exactly when the Content-Type mentions "xml" and not "json";
-everything else (including no Content-Type at all) goes to JSON. -/
+/-- The unmarshaller is XML exactly when the Content-Type mentions "xml" and not "json" — in any
+letter case; everything else (including no Content-Type at all) goes to JSON. -/
 theorem codec_xml_iff (ct : Req.Proto.Bytes) :
-    codecFor ct = .xml ↔ hasSub sJson ct = false ∧ hasSub sXml ct = true := by
+    codecFor ct = .xml ↔ isJSONType ct = false ∧ isXMLType ct = true := by
   unfold codecFor
-  cases hasSub sJson ct <;> cases hasSub sXml ct <;> simp
+  cases isJSONType ct <;> cases isXMLType ct <;> simp
+
+theorem lowerB_idem (b : UInt8) : lowerB (lowerB b) = lowerB b := by
+  unfold lowerB
+  by_cases h : 65 ≤ b ∧ b ≤ 90
+  · have h2 : ¬ (65 ≤ b + 32 ∧ b + 32 ≤ 90) := by
+      obtain ⟨h1, h2⟩ := h
+      rw [UInt8.le_iff_toNat_le] at h1 h2
+      intro ⟨_, h4⟩
+      rw [UInt8.le_iff_toNat_le] at h4
+      have : (b + 32).toNat = b.toNat + 32 := by
+        rw [UInt8.toNat_add]; simp at h1 h2 ⊢; omega
+      simp at h1 h2 h4; omega
+    simp [h, h2]
+  · simp [h]
+
+theorem lowerBytes_idem (ct : Req.Proto.Bytes) : lowerBytes (lowerBytes ct) = lowerBytes ct := by
+  unfold lowerBytes
+  rw [List.map_map]
+  apply List.map_congr_left
+  intro b _
+  exact lowerB_idem b
+
+/-- **codec_case_insensitive** — the choice of the unmarshaller does not depend on the letter
+case of the Content-Type: a value and its lower-cased form select the same one (media types are
+case-insensitive, RFC 9110 8.3.1; /repo f13c292). -/
+theorem codec_case_insensitive (ct : Req.Proto.Bytes) : codecFor (lowerBytes ct) = codecFor ct := by
+  unfold codecFor isJSONType isXMLType
+  rw [lowerBytes_idem]
+
+/-- two values that differ in letter case only select the same unmarshaller -/
+theorem codec_same_of_same_lower (a b : Req.Proto.Bytes) (h : lowerBytes a = lowerBytes b) : codecFor a = codecFor b := by
+  unfold codecFor isJSONType isXMLType; rw [h]
 
 example : codecFor [116, 101, 120, 116, 47, 120, 109, 108] = .xml ∧ codecFor [] = .json
     ∧ codecFor [120, 109, 108, 43, 106, 115, 111, 110] = .json := by decide
+
+/-- "application/XML", "TEXT/Xml" → xml; "Application/JSON" → json; "xml+JSON" → json -/
+example : codecFor [97, 112, 112, 108, 105, 99, 97, 116, 105, 111, 110, 47, 88, 77, 76] = .xml
+    ∧ codecFor [84, 69, 88, 84, 47, 88, 109, 108] = .xml
+    ∧ codecFor [65, 112, 112, 108, 105, 99, 97, 116, 105, 111, 110, 47, 74, 83, 79, 78] = .json
+    ∧ codecFor [120, 109, 108, 43, 74, 83, 79, 78] = .json := by decide
 
 end Req.Props.C18
